@@ -95,7 +95,17 @@ func genProcCase(rng *hx.Rng) *c01Gen {
 		for _, key := range keys {
 			parts := strings.Split(key, " ")
 			src, _ := strconv.Atoi(parts[0])
-			g.events = append(g.events, c01Event{src: src, stream: parts[1], spec: c01Spec(parts[1], pass, []string{"x" + strconv.Itoa(round)})})
+			spec := c01Spec(parts[1], pass, []string{"x" + strconv.Itoa(round)})
+			var ks strings.Builder
+			for p, a := range strings.Split(g.chain, ",") {
+				if strings.HasSuffix(a, ":c") {
+					ks.WriteString(`,"k` + strconv.Itoa(p) + `":"y"`)
+				}
+			}
+			if ks.Len() > 0 {
+				spec = append(spec[:len(spec)-1], []byte(ks.String()+"}")...)
+			}
+			g.events = append(g.events, c01Event{src: src, stream: parts[1], spec: spec})
 		}
 	}
 	return g
